@@ -201,6 +201,11 @@ class Reaching:
         d = rd.single_def(at, e.id)
         if d is not None and d.how == 'assign' and d.value is not None and depth > 0 and (aliases or e.id not in rd.mutated):
           return sub(clone(d.value), d.node, depth - 1)
+        if d is not None and d.how == 'unpack' and d.index is not None and d.value is not None and depth > 0 and e.id not in rd.mutated:
+          # a, b = [x, y]  (possibly through a local naming the list): the element at the target's position
+          seq = sub(clone(d.value), d.node, depth - 1)
+          if isinstance(seq, (ast.Tuple, ast.List)) and d.index < len(seq.elts) and not any(isinstance(x, ast.Starred) for x in seq.elts):
+            return seq.elts[d.index]
         if d is None and pathenv is not None and at is node and e.id in pathenv and depth > 0 and e.id not in rd.mutated:
           # several definitions reach, but on the path under consideration the last one is known
           pd, penv = pathenv[e.id]
